@@ -166,7 +166,9 @@ pub fn child(args: &[String]) -> i32 {
     }
     for k in order {
         let mut rng = StdRng::seed_from_u64(seed.wrapping_mul(7919).wrapping_add(k as u64));
-        let (kind, src, steps): (&str, String, Vec<J>) = if k % 8 == 6 {
+        let (kind, src, steps): (&str, String, Vec<J>) = if k % 16 == 12 {
+            ("simnames", SIM_PROGRAM.to_string(), vec![])
+        } else if k % 8 == 6 {
             ("confnames", conf_names(&mut rng), vec![])
         } else if k % 4 == 2 {
             ("ionames", io_names(&mut rng), vec![])
@@ -192,7 +194,25 @@ pub fn child(args: &[String]) -> i32 {
         match TestHarness::from_source(&src) {
             Ok(mut h) => {
                 let dbg = h.runtime_mut().enable_debug();
-                if kind == "names" || kind == "ionames" || kind == "confnames" {
+                if kind == "simnames" {
+                    // the simulation layer (simulation.toml -> SimulationController), hooked around the cycle the way the
+                    // resource loop does it: several couplings drive one input word with one delay
+                    match sim_controller(&mut rng, k) {
+                        Ok(mut sim) => {
+                            h.runtime_mut().io_mut().resize(4, 4, 0);
+                            for _ in 0..7 {
+                                h.advance_time(Duration::from_millis(10));
+                                let now = h.runtime().current_time();
+                                let pre = sim.apply_pre_cycle(now, h.runtime_mut()).err().map(|e| format!("{e:?}")).unwrap_or_default();
+                                let r = h.cycle();
+                                let post = sim.apply_post_cycle(now, h.runtime()).err().map(|e| format!("{e:?}")).unwrap_or_default();
+                                let io = h.runtime().io();
+                                digests.push(format!("{}|{}|{}|{}", storage_digest(&h), hex(format!("{:?}{pre}{post}", r.errors).as_bytes()), hex(io.inputs()), hex(io.outputs())));
+                            }
+                        }
+                        Err(e) => digests.push(format!("simulation-config-error:{}", hex(e.as_bytes()))),
+                    }
+                } else if kind == "names" || kind == "ionames" || kind == "confnames" {
                     for c in 0..4 {
                         h.advance_time(Duration::from_millis(7));
                         if kind == "names" {
@@ -273,4 +293,23 @@ fn bundle_bytes(src: &str, k: usize) -> String {
         Ok(b) => format!("{}:{}", b.len(), hex(&b)),
         Err(e) => format!("error:{}", hex(e.lines().next().unwrap_or("").as_bytes())),
     }
+}
+
+const SIM_PROGRAM: &str = "PROGRAM SimMain\nVAR\n  n : INT;\n  seen : WORD;\n  w AT %IW0 : WORD;\n  q0 AT %QX0.0 : BOOL; q1 AT %QX0.1 : BOOL; q2 AT %QX0.2 : BOOL; q3 AT %QX0.3 : BOOL; q4 AT %QX0.4 : BOOL; q5 AT %QX0.5 : BOOL;\nEND_VAR\nn := n + 1;\nseen := w;\nq0 := (n MOD 2) = 1; q1 := q0; q2 := q0; q3 := NOT q0; q4 := q0; q5 := NOT q0;\nEND_PROGRAM\n";
+fn sim_controller(rng: &mut StdRng, k: usize) -> Result<trust_runtime::simulation::SimulationController, String> {
+    use rand::seq::SliceRandom;
+    let mut order: Vec<usize> = (0..6).collect();
+    order.shuffle(rng);
+    let delay = [0u64, 10, 20][k % 3];
+    let mut text = String::from("[simulation]\nenabled = true\nseed = 7\ntime_scale = 1\n");
+    for i in order {
+        text.push_str(&format!("\n[[couplings]]\nsource = \"%QX0.{i}\"\ntarget = \"%IW0\"\nthreshold = 0.5\ndelay_ms = {delay}\non_true = \"{}\"\non_false = \"{}\"\n", 100 + i, 200 + i));
+    }
+    let dir = std::env::temp_dir().join(format!("zq-det-sim-{}-{k}", std::process::id()));
+    std::fs::create_dir_all(&dir).map_err(|e| e.to_string())?;
+    let p = dir.join("simulation.toml");
+    std::fs::write(&p, text).map_err(|e| e.to_string())?;
+    let cfg = trust_runtime::simulation::SimulationConfig::load(&p).map_err(|e| e.to_string());
+    let _ = std::fs::remove_dir_all(&dir);
+    Ok(trust_runtime::simulation::SimulationController::new(cfg?))
 }
